@@ -284,9 +284,12 @@ func stickyErrorWriter(p *packages.Package, t types.Type) bool {
 // errorsFoundAreReported: two more ways in which a failure that was SEEN is not reported, over the paths of every
 // function of the packages given that returns an error:
 // (c) `if err != nil { … }` whose body only jumps away (break / continue) or is empty, without mentioning err: the
-//     failure was looked at and dropped;
+//
+//	failure was looked at and dropped;
+//
 // (d) a return of a nil error on a path that obtained an error from a call earlier and took no condition on it after
-//     the call (typically a `switch` whose `case err != nil` comes after a case that returns success).
+//
+//	the call (typically a `switch` whose `case err != nil` comes after a case that returns success).
 func errorsFoundAreReported(c *Ctx, rule string, rels ...string) {
 	n := 0
 	for _, rel := range rels {
